@@ -120,6 +120,9 @@ pub enum Piece {
     Comment,
     Input(u8),
     EndInput,
+    /// `\\ld name ` where `\\def\\ld#1 {<\\input #1 >}`: an \\input issued from a macro expansion, with a
+    /// token of the expansion pending behind it
+    Ld(u8),
 }
 
 #[derive(Clone, Debug, Serialize, Deserialize)]
@@ -166,6 +169,13 @@ fn render_file(spec: &FileSpec, idx: usize, nfiles: usize) -> String {
                     s.push_str("\\endinput ");
                     had_endinput = true;
                 }
+                Piece::Ld(j) => {
+                    let remaining = nfiles.saturating_sub(idx + 1);
+                    if remaining > 0 && !had_endinput {
+                        let target = idx + 1 + (*j as usize % remaining);
+                        s.push_str(&format!("\\ld {} ", file_name(target)));
+                    }
+                }
             }
         }
         if li + 1 < spec.lines.len() || spec.final_newline {
@@ -202,11 +212,12 @@ pub struct InputModelStats {
     pub text_after_endinput: bool,
     pub endinputs: usize,
     pub inputs: usize,
+    pub macro_inputs: usize,
 }
 
 /// Interpret the file tree with TeX's semantics.
 pub fn run_input_model(files: &BTreeMap<String, String>, main: &str, dev: InputDev, max_sources: usize) -> (ModelEnd, InputModelStats) {
-    let mut stats = InputModelStats { max_depth: 0, text_after_input: false, text_after_endinput: false, endinputs: 0, inputs: 0 };
+    let mut stats = InputModelStats { max_depth: 0, text_after_input: false, text_after_endinput: false, endinputs: 0, inputs: 0, macro_inputs: 0 };
     let mut stack: Vec<Src> = vec![Src { lines: split_lines(main), next_line: 0, toks: VecDeque::new(), force_eof: false, in_line: false }];
     let mut out = String::new();
     let mut group_depth: i64 = 0;
@@ -347,10 +358,42 @@ pub fn run_input_model(files: &BTreeMap<String, String>, main: &str, dev: InputD
                     }
                 }
                 "def" => {
-                    // only the fixed preamble \def\par{P}: consume it
-                    for _ in 0..4 {
-                        let _ = next_tok(&mut stack, false);
+                    // only the fixed preamble definitions: skip to the end of the body
+                    let mut depth = 0i32;
+                    loop {
+                        match next_tok(&mut stack, false) {
+                            Ok(Some(Tok::Open)) => depth += 1,
+                            Ok(Some(Tok::Close)) => {
+                                depth -= 1;
+                                if depth == 0 {
+                                    break;
+                                }
+                            }
+                            Ok(Some(_)) => {}
+                            _ => return (ModelEnd::TexError("runaway definition"), stats),
+                        }
                     }
+                }
+                "ld" => {
+                    // \def\ld#1 {<\input #1 >}: #1 is delimited by a space
+                    let mut arg: Vec<Tok> = vec![];
+                    loop {
+                        let top = stack.last_mut().unwrap();
+                        match top.toks.pop_front() {
+                            Some(Tok::Sp) => break,
+                            Some(t @ Tok::L(_)) => arg.push(t),
+                            _ => return (ModelEnd::TexError("argument of \\ld runs over the line"), stats),
+                        }
+                    }
+                    let top = stack.last_mut().unwrap();
+                    let mut exp: Vec<Tok> = vec![Tok::Other('<'), Tok::Cs("input".into())];
+                    exp.extend(arg);
+                    exp.push(Tok::Sp);
+                    exp.push(Tok::Other('>'));
+                    for t in exp.into_iter().rev() {
+                        top.toks.push_front(t);
+                    }
+                    stats.macro_inputs += 1;
                 }
                 _ => return (ModelEnd::TexError("undefined control sequence"), stats),
             },
@@ -369,7 +412,8 @@ fn piece_strategy() -> impl Strategy<Value = Piece> {
         1 => Just(Piece::Else),
         2 => Just(Piece::Fi),
         1 => Just(Piece::Comment),
-        7 => (0u8..8).prop_map(Piece::Input),
+        5 => (0u8..8).prop_map(Piece::Input),
+        3 => (0u8..8).prop_map(Piece::Ld),
         1 => Just(Piece::EndInput),
     ]
 }
@@ -460,7 +504,7 @@ fn tree_oracle(ctx: &Ctx, c: &TreeCase, case: &mut Case) -> Verdict {
         files.insert(file_name(i), text.clone());
         vm_files.push((format!("{}.tex", file_name(i)), text));
     }
-    let main = format!("\\def\\par{{P}}%\n{}", render_file(&c.files[0], 0, n));
+    let main = format!("\\def\\par{{P}}\\def\\ld#1 {{<\\input #1 >}}%\n{}", render_file(&c.files[0], 0, n));
     let (model, stats) = run_input_model(&files, &main, InputDev::default(), MAX_SOURCES);
     let mut note = format!("main: {:?}", main);
     for (k, v) in &files {
@@ -474,7 +518,8 @@ fn tree_oracle(ctx: &Ctx, c: &TreeCase, case: &mut Case) -> Verdict {
     case.class_if(stats.text_after_input, "text after \\input on its line");
     case.class_if(stats.text_after_endinput, "text after \\endinput on its line");
     case.class_if(stats.endinputs > 0, "endinput executed");
-    let nontrivial = stats.max_depth >= 2 || stats.text_after_input || stats.text_after_endinput;
+    case.class_if(stats.macro_inputs > 0, "\\input from a macro expansion with pending tokens");
+    let nontrivial = stats.max_depth >= 2 || stats.text_after_input || stats.text_after_endinput || stats.macro_inputs > 0;
     match model {
         ModelEnd::TexError(e) => {
             case.class("tex error");
